@@ -641,6 +641,29 @@ pub fn c19(ctx: &mut Ctx, acc: &mut Acc) -> i32 {
     0
 }
 
+/// C05 (f): one hostile decode in a process of its own — for inputs that may end in an allocation failure, which is an
+/// abort and cannot be caught: prints the outcome and the allocation statistics, the driver judges
+pub fn oneshot(ctx: &mut Ctx) -> i32 {
+    let subject = ctx.extra.get("subject").cloned().unwrap_or_default();
+    let hex_in = ctx.extra.get("hex").cloned().unwrap_or_default();
+    let bytes: Vec<u8> = (0..hex_in.len() / 2).filter_map(|i| u8::from_str_radix(&hex_in[2 * i..2 * i + 2], 16).ok()).collect();
+    ctx.crumb(&subject, "oneshot", &bytes);
+    let Some(s) = ctx.reg.get(&subject) else {
+        println!("ONESHOT unknown subject {subject}");
+        return 2;
+    };
+    let (real, stats) = dec_hostile(s, &bytes);
+    println!(
+        "ONESHOT subject={subject} input_len={} outcome={} largest_single_request={} total_requested={} steps={}",
+        bytes.len(),
+        real.class().replace(' ', "_"),
+        stats.alloc.max_single,
+        stats.alloc.total,
+        stats.steps
+    );
+    0
+}
+
 /// C05 (e): one nesting-depth probe, run in its own process on a thread with the default 8 MiB stack
 pub fn depthprobe(ctx: &mut Ctx) -> i32 {
     let subject = ctx.extra.get("subject").cloned().unwrap_or_else(|| "DeepRec".to_string());
